@@ -295,6 +295,15 @@ theorem loopG_eq (par : Bool) (d : DecCore) (buf : Bytes) (em : List Field) :
         exact writeLoop_fuel par _ _ _ _ _ (by omega) (by omega)
       · simp only [hlt, ↓reduceIte]
 
+theorem afterRepr_dyn (buf : Bytes) (d : DecCore) : (afterRepr buf d).dyn = d.dyn := by
+  unfold afterRepr; split <;> rfl
+
+theorem afterRepr_maxStrLen (buf : Bytes) (d : DecCore) : (afterRepr buf d).maxStrLen = d.maxStrLen := by
+  unfold afterRepr; split <;> rfl
+
+theorem afterRepr_emitEnabled (buf : Bytes) (d : DecCore) : (afterRepr buf d).emitEnabled = d.emitEnabled := by
+  unfold afterRepr; split <;> rfl
+
 /-- `afterRepr` only looks at the first byte. -/
 theorem afterRepr_append (p q : Bytes) (d : DecCore) (hp : p ≠ []) : afterRepr (p ++ q) d = afterRepr p d := by
   cases p with
@@ -335,13 +344,13 @@ theorem loopI_append (q : Bytes) : ∀ (n : Nat) (p : Bytes) (d : DecCore) (em :
         rw [← h.1, ← h.2.1, ← h.2.2, loopG_eq false d (p ++ q)]
         simp only [hne, ↓reduceIte, Bool.false_eq_true, false_and]
       | err e d' =>
-        rw [parseRepr_err_append d p q d' e hpr, afterRepr_append p q _ hnil]
-        simp only [Prod.mk.injEq, reduceCtorEq, and_false, false_implies, implies_true, true_and]
+        rw [parseRepr_err_append d p q d' e hpr]
+        simp only [afterRepr_append p q _ hnil, Prod.mk.injEq, reduceCtorEq, and_false, false_implies, implies_true, true_and]
         intro d1 em1 e1 h
         exact h
       | ok d' rest e =>
-        rw [parseRepr_ok_append d p q d' rest e hpr, afterRepr_append p q _ hnil]
-        simp only [List.length_append, Nat.add_lt_add_iff_right]
+        rw [parseRepr_ok_append d p q d' rest e hpr]
+        simp only [afterRepr_append p q _ hnil, List.length_append, Nat.add_lt_add_iff_right]
         by_cases hlt : rest.length < p.length
         · simp only [hlt, ↓reduceIte]
           exact ih rest _ _ (by omega)
